@@ -112,6 +112,11 @@ func runReinvest(ctx *action.Context, tx action.RawTx) (bool, action.Response) {
 	}
 
 	// cut rewards
+	// the amount must be a non-negative OLT amount: a negative amount raised the reward balance
+	// out of nothing, stored a negative active delegation and took the amount out of the pool
+	if !invest.Amount.IsValid(ctx.Currencies) || invest.Amount.Currency != "OLT" {
+		return helpers.LogAndReturnFalse(ctx.Logger, action.ErrInvalidAmount, invest.Tags(), errors.New("invalid reinvest amount"))
+	}
 	coinAmt := invest.Amount.ToCoin(ctx.Currencies)
 	err = ctx.NetwkDelegators.Rewards.MinusRewardsBalance(invest.Delegator, coinAmt.Amount)
 	if err != nil {
